@@ -672,6 +672,9 @@ class GroupBy:
             else:
                 arr = arr.view(int)
                 dtype = orig_type
+                if isinstance(dtype, pa.DataType):
+                    # values given as a bare pyarrow array: pandas needs the wrapped dtype
+                    dtype = pd.ArrowDtype(dtype)
         else:
             dtype = None
         return pd.Series(
